@@ -54,7 +54,8 @@ BASE["raise"] = True
 
 def plan(tier):
     q = tier == "quick"
-    return [{"name": "main", "examples": 1500 if q else 40000}, {"name": "preempt", "examples": 700 if q else 30000}]
+    return [{"name": "main", "examples": 1500 if q else 40000}, {"name": "preempt", "examples": 700 if q else 30000},
+            {"name": "sustained", "examples": 120 if q else 2000, "shards": 4}]
 
 
 @st.composite
@@ -97,7 +98,30 @@ def _case(draw, preempt=False):
     return case
 
 
+@st.composite
+def _sustained(draw):
+    """No self-feeding anywhere: TICK's handler suspends in a slow action and a producer lands the
+    next TICK inside every suspended macrostep, for more than maxIterations macrosteps in a row."""
+    from ..render import finalize
+
+    d = D(draw)
+    m = d.int(3, 8)
+    n = m + d.int(1, 12)
+    slow = d.pick([10, 20, 40])
+    w = {"key": "w", "kind": "atomic", "on": [["A", [{"target": None, "actions": [{"k": "user", "name": "slow"}]}]],
+                                              ["B", [{"target": None, "actions": []}]]]}
+    spec = {"id": "m", "root": {"key": "m", "kind": "compound", "initial": "w", "children": [w]}, "context": {"n": 0},
+            "maxIterations": m, "tables": {}, "services": {}, "impls": {"slow": {"k": "slow", "ms": slow}}}
+    finalize(spec)
+    prod = [[0, "A", "send"]] + [[slow // 2 if i == 0 else slow, "A", "send"] for i in range(n - 1)]
+    others = [[[d.pick([0, 5, 15]), "B", "send"]] for _ in range(d.int(0, 2))]
+    return {"spec": spec, "producers": [prod] + others, "engine": draw(st.sampled_from(["sync", "async"])),
+            "choices": draw(st.lists(st.integers(0, 5), max_size=20)), "tail": 200 + slow * n}
+
+
 def strategy(tier, campaign):
+    if campaign == "sustained":
+        return _sustained()
     return _case(preempt=(campaign == "preempt"))
 
 
@@ -221,10 +245,10 @@ def run_sync(case, rec_out):
         sched.settle()
         # slow entry/exit actions plus self re-arming timers can keep the engine busy past the
         # tail: give it more virtual time; a machine that never goes idle is not judged at "the end"
-        for _ in range(40):
+        for _ in range(3):
             if rec.blown or not (it._is_processing or it._event_queue):
                 break
-            sched.advance(0.1)
+            sched.advance(0.045)
             sched.settle()
         if rec.blown:
             raise StepBudgetExceeded("blown")
@@ -313,9 +337,12 @@ def check_case(case) -> CaseResult:
         lost = sorted(set(want) - set(got))
         dup = sorted({x for x in got if got.count(x) > 1})
         extra = sorted(set(got) - set(want))
+        import json as _json
+
+        self_fed = '"k": "raise"' in _json.dumps(spec) or any(e[0] == "recv" and str(e[1]).startswith("done.") for e in log)
         if lost and stranded:
             pass  # reported above as stranded (accepted, never dequeued, still in the queue)
-        elif lost and not cut and len([e for e in log if e[0] == "recv"]) < maxit:
+        elif lost and not cut and (len([e for e in log if e[0] == "recv"]) < maxit or not self_fed):
             res.violate(f"{engine}|event-lost", {"engine": engine, "lost": lost[:6], "sent": len(want), "dequeued": len(got)})
         elif lost:
             res.inconclusive = "cut-or-bound"
